@@ -161,4 +161,8 @@ def run_suite(name, tier, seed):
 
 
 def check(prop, tier, seed):
-    return [run_suite(s, tier, seed) for s in PROP_SUITES[prop]]
+    out = [run_suite(s, tier, seed) for s in PROP_SUITES[prop]]
+    if prop == "C08":
+        from . import cs          # values added to a change set
+        out += cs.check("C08", tier, seed)
+    return out
